@@ -241,6 +241,23 @@ def rand_decode_case(rng):
     return {"k": "decode", "tpl": tpl, "cfg": cfg, "refs": refs}
 
 
+def tie_decode_case(rng):
+    """many long names at the same minimum distance from the misspelt reference: the suggestion list is long (the whole
+    message runs to kilobytes) and must still be complete"""
+    n = rng.choice([13, 16, 24, 40, 50])
+    L = rng.choice([40, 60, 63, 64])
+    prefix = "N" + "".join(rng.choice("abcXYZ_019") for _ in range(L - 2))
+    tails = rng.sample("ABCDEFGHIJKLMNOPQRSTUVWXYZabcdefghijklmnopqrstuvwxyz", n + 1)
+    params = [(prefix + t, rng.choice(["STRING", "INT", "FLOAT", "PATH"])) for t in tails[:n]]
+    cfg = {"params": params, "envfiles": {k: rand_idents(rng, 1, 2) for k in ("je0", "je1", "se")},
+           "steps": [{"tparams": rand_idents(rng, 1, 2), "files": rand_idents(rng, 1, 2)} for _ in range(2)]}
+    locs = sorted(JOB_LOCS)
+    loc = rng.choice(locs)
+    kind = rng.choice(["Param.", "RawParam."])
+    m = kind + prefix + (tails[n] if rng.random() < 0.7 else "")
+    return {"k": "decode", "tpl": "job", "cfg": cfg, "refs": [[loc, m, "{{%s}}"]]}
+
+
 _ERR = re.compile(r"Variable (\S+) does not exist at this location\.(?: Did you mean: (.*)| Did you mean one of: (.*))?\Z")
 
 
@@ -402,6 +419,8 @@ class C20(core.PropBase):
         thorough = tier == "thorough"
         n_decode = 60000 if thorough else 4000
         decode_cases = [rand_decode_case(rng) for _ in range(n_decode)]
+        decode_cases[1:1] = [tie_decode_case(rng) for _ in range(60 if thorough else 12)]
+        n_decode = len(decode_cases)
         n_rand_pairs = 300000 if thorough else 20000
         n_sets = 300000 if thorough else 20000
 
@@ -441,7 +460,7 @@ class C20(core.PropBase):
                 "incl. non-ASCII/astral code points (oracle lev when both <= 7 long); random symbol sets (3-letter alphabet for ties, dotted "
                 "template-style names, short names vs long symbols, empty sets, duplicates, shuffled) through closest() and "
                 "FullNameNode.validate_symbol_refs(); random job/environment templates (random near-colliding identifiers, 1-4 misspelt or "
-                "out-of-scope references over 20 locations) through decode_*_template. distinct = by case content; non-trivial = "
+                "out-of-scope references over 20 locations; 13-50 names of 40-64 characters all at distance 1 from the reference) through decode_*_template. distinct = by case content; non-trivial = "
                 "dist: a != b both non-empty; closest/validate: >= 2 symbols; decode: always")
 
     def exhaustive(self, tier):
